@@ -84,6 +84,18 @@ def routedAfterClose (obs : List Obs) : Bool :=
 /-- the predicate the driver evaluates: `holds` and nothing routed after the close -/
 def holdsStrict (sc : Scenario) (obs : List Obs) : Bool := holds sc obs && !routedAfterClose obs
 
+/-- the application's own record "by now I have closed the HTTP socket" (`mark` in the scenario
+    language, issued right after `close`, `writeError`, `writeRedirect` or `writeJson`) -/
+def isMark : Obs → Bool | .misc 50 _ => true | _ => false
+
+/-- "after the application has closed the HTTP socket no further byte is written": no byte
+    reaches the wire after the application's first such record -/
+def wroteAfterAppClose (obs : List Obs) : Bool :=
+  (obs.dropWhile (fun o => !isMark o)).any Obs.isW
+
+/-- the predicate the driver evaluates on scenarios carrying `mark`s -/
+def holdsMarked (sc : Scenario) (obs : List Obs) : Bool := holdsStrict sc obs && !wroteAfterAppClose obs
+
 /-! ### the definitions above and the ones the lemmas are stated with coincide -/
 
 theorem isRt_eq : isRt = C19L.isRt := by
